@@ -311,7 +311,7 @@ fn write_wrapper(dir: &Path) -> PathBuf {
     write_exec(
         &w,
         &format!(
-            "#!/bin/sh\nD='{d}'\nhas_e=0\nhas_src=0\nfor a in \"$@\"; do\n  case \"$a\" in\n    -E) has_e=1 ;;\n    *unit.c) has_src=1 ;;\n  esac\ndone\nphase=other\nif [ $has_e = 1 ] && [ $has_src = 0 ]; then phase=detect; fi\nif [ $has_e = 1 ] && [ $has_src = 1 ]; then phase=preprocess; fi\nif [ $has_e = 0 ] && [ $has_src = 1 ]; then phase=compile; fi\necho \"$phase $PPID\" >> \"$D/phases.log\"\nif mv \"$D/arm-$phase\" \"$D/fired-$phase\" 2>/dev/null; then\n  echo \"$$\" > \"$D/fifo\"\n  exec sleep 600\nfi\nexec /usr/bin/gcc \"$@\"\n",
+            "#!/bin/sh\nD='{d}'\nhas_e=0\nhas_src=0\nfor a in \"$@\"; do\n  case \"$a\" in\n    -E) has_e=1 ;;\n    *unit.c) has_src=1 ;;\n  esac\ndone\nphase=other\nif [ $has_e = 1 ] && [ $has_src = 0 ]; then phase=detect; fi\nif [ $has_e = 1 ] && [ $has_src = 1 ]; then phase=preprocess; fi\nif [ $has_e = 0 ] && [ $has_src = 1 ]; then phase=compile; fi\nT=\"${{C11_TAG:-x}}\"\necho \"$phase $PPID\" >> \"$D/phases.log\"\nif mv \"$D/arm-$phase-$T\" \"$D/fired-$phase-$T\" 2>/dev/null; then\n  echo \"$$\" > \"$D/fifo\"\n  exec sleep 600\nfi\nexec /usr/bin/gcc \"$@\"\n",
             d = dir.display()
         ),
     );
@@ -329,10 +329,16 @@ fn start_server(cap: u64) -> Option<Live> {
     for _ in 0..20 {
         let dir = scratch("vh-c11s-");
         let port = free_port();
+        // the server itself tells us (SCCACHE_STARTUP_NOTIFY) whether it bound the port: nobody else's
+        // listener on the same port can be mistaken for it
+        let sock = dir.path().join("notify.sock");
+        let notify = std::os::unix::net::UnixListener::bind(&sock).expect("bind notify socket");
+        notify.set_nonblocking(true).unwrap();
         let mut c = base_cmd(dir.path());
         server_env(&mut c, dir.path(), port, cap);
         c.env("SCCACHE_START_SERVER", "1")
             .env("SCCACHE_NO_DAEMON", "1")
+            .env("SCCACHE_STARTUP_NOTIFY", &sock)
             .current_dir(dir.path())
             .stdout(Stdio::null())
             .stderr(Stdio::null());
@@ -346,21 +352,32 @@ fn start_server(cap: u64) -> Option<Live> {
         let t0 = Instant::now();
         let mut up = false;
         while t0.elapsed() < FAILSAFE {
-            if TcpStream::connect(("127.0.0.1", port)).is_ok() {
-                up = true;
-                break;
+            match notify.accept() {
+                Ok((mut s, _)) => {
+                    s.set_nonblocking(false).unwrap();
+                    s.set_read_timeout(Some(FAILSAFE)).unwrap();
+                    let mut h = [0u8; 4];
+                    if s.read_exact(&mut h).is_ok() {
+                        let mut p = vec![0u8; u32::from_be_bytes(h) as usize];
+                        // ServerStartup::Ok { addr } is variant 0
+                        up = s.read_exact(&mut p).is_ok() && p.len() >= 4 && p[..4] == [0, 0, 0, 0];
+                    }
+                    break;
+                }
+                Err(_) => {
+                    if let Ok(Some(_)) = child.try_wait() {
+                        break;
+                    }
+                    std::thread::sleep(Duration::from_millis(2));
+                }
             }
-            if let Ok(Some(_)) = child.try_wait() {
-                break; // lost the port to somebody else: try another one
-            }
-            std::thread::sleep(Duration::from_millis(5));
         }
         if up {
             let wrapper = write_wrapper(dir.path());
             return Some(Live { child, port, cap, dir, wrapper });
         }
         let _ = child.kill();
-        let _ = child.wait();
+        let _ = child.wait(); // lost the port to somebody else (or failed to start): try another one
     }
     None
 }
@@ -369,6 +386,7 @@ impl Live {
     fn stop(mut self) {
         let _ = self.child.kill();
         let _ = self.child.wait();
+        scan_and_kill_everything(self.dir.path());
     }
     fn exited(&mut self) -> bool {
         matches!(self.child.try_wait(), Ok(Some(_)))
@@ -570,6 +588,16 @@ fn run_server_case(live: &mut Option<Live>, counter: &mut u64, case: &Sx) -> Sx 
 // ------------------------------------------------------------------ leg kill
 
 fn scan_and_kill_servers(dir: &Path) -> usize {
+    scan_and_kill(dir, true)
+}
+
+/// Last line of defence against leaks when a case goes wrong: every live process that carries this case's
+/// unique cache directory in its environment (servers, wrappers, sleeps) — by pid, never by name.
+fn scan_and_kill_everything(dir: &Path) -> usize {
+    scan_and_kill(dir, false)
+}
+
+fn scan_and_kill(dir: &Path, servers_only: bool) -> usize {
     // daemonised servers started by a client are not our children: find them by the unique cache dir in
     // their environment (never by name), skip zombies, kill by pid
     let needle = format!("SCCACHE_DIR={}", dir.join("cache").display());
@@ -586,7 +614,7 @@ fn scan_and_kill_servers(dir: &Path) -> usize {
                 Err(_) => continue,
             };
             let has = |k: &str| env.split(|&b| b == 0).any(|kv| kv == k.as_bytes());
-            if !(has(&needle) && has("SCCACHE_START_SERVER=1")) {
+            if !(has(&needle) && (!servers_only || has("SCCACHE_START_SERVER=1"))) {
                 continue;
             }
             let stat = std::fs::read_to_string(e.path().join("stat")).unwrap_or_default();
@@ -603,90 +631,29 @@ fn scan_and_kill_servers(dir: &Path) -> usize {
     n
 }
 
-fn run_kill_case(case: &Sx) -> Sx {
-    let phase = case.arg(0).str();
-    let ignore = case.arg(1).as_bool();
-    let mut srv = match start_server(8 * 1024 * 1024) {
-        Some(s) => s,
-        None => return Sx::L(vec![Sx::sym("harness_problem"), Sx::sym("server_did_not_start")]),
-    };
-    let d = srv.dir.path().to_path_buf();
-    let work = d.join("w");
-    let reference = make_unit(&work, 7);
-    let fifo = d.join("fifo");
-    let cfifo = std::ffi::CString::new(fifo.as_os_str().as_bytes()).unwrap();
-    unsafe {
-        libc::mkfifo(cfifo.as_ptr(), 0o600);
-    }
-    if phase != "none" {
-        std::fs::write(d.join(format!("arm-{phase}")), "").unwrap();
-    }
-    let mut cmd = srv.client_cmd(&work);
-    if ignore {
-        cmd.env("SCCACHE_IGNORE_SERVER_IO_ERROR", "1");
-    }
-    let mut client = cmd.spawn().expect("spawn client");
-    let client_pid = client.id();
-    let mut killed_wrapper = 0i32;
-    if phase != "none" {
-        // wait until the wrapper reached the phase and wrote its pid (event-driven; the loop only ends early
-        // when the client is already gone, i.e. the phase was never reached)
-        let mut txt = String::new();
-        {
-            use std::os::unix::fs::OpenOptionsExt;
-            let mut f = std::fs::OpenOptions::new()
-                .read(true)
-                .custom_flags(libc::O_NONBLOCK)
-                .open(&fifo)
-                .expect("open fifo");
-            let t0 = Instant::now();
-            let mut buf = [0u8; 64];
-            while t0.elapsed() < FAILSAFE {
-                match f.read(&mut buf) {
-                    Ok(n) if n > 0 => {
-                        txt.push_str(&String::from_utf8_lossy(&buf[..n]));
-                        if txt.ends_with('\n') {
-                            break;
-                        }
-                    }
-                    _ => {
-                        if let Ok(Some(_)) = client.try_wait() {
-                            break;
-                        }
-                        std::thread::sleep(Duration::from_millis(2));
-                    }
-                }
-            }
-        }
-        let _ = srv.child.kill(); // SIGKILL: the kernel closes the server's sockets
-        let _ = srv.child.wait();
-        if let Ok(pid) = txt.trim().parse::<i32>() {
-            killed_wrapper = pid;
-            unsafe {
-                libc::kill(pid, libc::SIGKILL);
-            }
-        }
-    }
-    let code = wait_child(&mut client, FAILSAFE);
+struct Observed {
+    kind: &'static str,
+    why: &'static str,
+    code: i32,
+    ran: usize,
+    obj_ok: bool,
+}
+
+fn observe_client(mut client: Child, log_path: &Path, work: &Path, reference: &[u8]) -> Option<Observed> {
+    let pid = client.id();
+    let code = wait_child(&mut client, FAILSAFE)?;
     let mut err = String::new();
     if let Some(mut e) = client.stderr.take() {
         let mut b = vec![];
         let _ = e.read_to_end(&mut b);
         err = String::from_utf8_lossy(&b).into_owned();
     }
-    let log = std::fs::read_to_string(d.join("phases.log")).unwrap_or_default();
+    let log = std::fs::read_to_string(log_path).unwrap_or_default();
     let ran = log
         .lines()
-        .filter(|l| l.split(' ').nth(1).and_then(|p| p.parse::<u32>().ok()) == Some(client_pid))
+        .filter(|l| l.split(' ').nth(1).and_then(|p| p.parse::<u32>().ok()) == Some(pid))
         .count();
     let obj_ok = std::fs::read(work.join("unit.o")).map(|o| o == reference).unwrap_or(false);
-    let code = match code {
-        Some(c) => c,
-        None => {
-            srv.stop();
-            return Sx::L(vec![Sx::sym("client_hung")]);
-        }
-    };
     let why = classify_stderr(&err);
     let kind = if ran > 0 {
         "local"
@@ -696,10 +663,114 @@ fn run_kill_case(case: &Sx) -> Sx {
         "finished"
     };
     let why = if kind == "local" && why == "none" { "unhandled" } else { why };
-    let object = if code == 0 && !obj_ok { "bad_object" } else { "ok" };
+    Some(Observed { kind, why, code, ran, obj_ok })
+}
+
+fn observed_fields(o: &Observed) -> Vec<Sx> {
+    vec![
+        Sx::sym(o.kind),
+        Sx::sym(o.why),
+        Sx::N(o.code as u32 as u128 & 0xffff),
+        Sx::usize(o.ran.min(1)),
+        Sx::sym(if o.ran > 0 { "L" } else { "S" }),
+        Sx::sym(if o.code == 0 && !o.obj_ok { "bad_object" } else { "ok" }),
+    ]
+}
+
+fn run_kill_case(case: &Sx) -> Sx {
+    let phase = case.arg(0).str();
+    let ignore = case.arg(1).as_bool();
+    let mut srv = match start_server(8 * 1024 * 1024) {
+        Some(s) => s,
+        None => return Sx::L(vec![Sx::sym("harness_problem"), Sx::sym("server_did_not_start")]),
+    };
+    let d = srv.dir.path().to_path_buf();
+    let work = d.join("w");
+    let work2 = d.join("w2");
+    let reference = make_unit(&work, 7);
+    let reference2 = make_unit(&work2, 8);
+    let fifo = d.join("fifo");
+    let cfifo = std::ffi::CString::new(fifo.as_os_str().as_bytes()).unwrap();
+    unsafe {
+        libc::mkfifo(cfifo.as_ptr(), 0o600);
+    }
+    let armed = phase != "none";
+    if armed {
+        // the client under test (tag a) loses the server in `phase`; a concurrent client (tag b) is always
+        // caught in its compiler run, i.e. after its acknowledgement
+        std::fs::write(d.join(format!("arm-{phase}-a")), "").unwrap();
+        std::fs::write(d.join("arm-compile-b"), "").unwrap();
+    }
+    let mut cmd = srv.client_cmd(&work);
+    cmd.env("C11_TAG", "a");
+    if ignore {
+        cmd.env("SCCACHE_IGNORE_SERVER_IO_ERROR", "1");
+    }
+    let mut client = cmd.spawn().expect("spawn client");
+    let mut client2: Option<Child> = None;
+    if armed {
+        use std::os::unix::fs::OpenOptionsExt;
+        let mut f = std::fs::OpenOptions::new()
+            .read(true)
+            .custom_flags(libc::O_NONBLOCK)
+            .open(&fifo)
+            .expect("open fifo");
+        let mut txt = String::new();
+        // Event-driven: returns once `want` wrappers have announced themselves; ends early only when the
+        // client that should get there has already exited (its phase was never reached).
+        let mut wait_lines = |want: usize, txt: &mut String, who: &mut Child| {
+            let t0 = Instant::now();
+            let mut buf = [0u8; 64];
+            while t0.elapsed() < FAILSAFE {
+                if txt.lines().count() >= want && txt.ends_with('\n') {
+                    return;
+                }
+                match f.read(&mut buf) {
+                    Ok(n) if n > 0 => txt.push_str(&String::from_utf8_lossy(&buf[..n])),
+                    _ => {
+                        if matches!(who.try_wait(), Ok(Some(_))) {
+                            return;
+                        }
+                        std::thread::sleep(Duration::from_millis(2));
+                    }
+                }
+            }
+        };
+        // first the client under test reaches its phase and stays there ...
+        wait_lines(1, &mut txt, &mut client);
+        // ... only then the concurrent client starts; it is caught in its own compiler run
+        let mut c2 = srv.client_cmd(&work2);
+        c2.env("C11_TAG", "b");
+        let mut ch2 = c2.spawn().expect("spawn concurrent client");
+        wait_lines(2, &mut txt, &mut ch2);
+        client2 = Some(ch2);
+        // nothing may be claimed any more (a falling-back client runs the same wrapper)
+        for a in [format!("arm-{phase}-a"), "arm-compile-b".to_string()] {
+            let _ = std::fs::remove_file(d.join(a));
+        }
+        let _ = srv.child.kill(); // SIGKILL: the kernel closes the server's sockets
+        let _ = srv.child.wait();
+        for l in txt.lines() {
+            if let Ok(pid) = l.trim().parse::<i32>() {
+                unsafe {
+                    libc::kill(pid, libc::SIGKILL);
+                }
+            }
+        }
+    }
+    let log_path = d.join("phases.log");
+    let o1 = observe_client(client, &log_path, &work, &reference);
+    let o2 = client2.map(|c| observe_client(c, &log_path, &work2, &reference2));
+    let o1 = match o1 {
+        Some(o) => o,
+        None => {
+            srv.stop();
+            return Sx::L(vec![Sx::sym("client_hung")]);
+        }
+    };
     // "if no server is running the client starts one and proceeds"
     let mut restart = "not_applicable";
-    if phase != "none" {
+    if armed {
         let _ = std::fs::remove_file(work.join("unit.o"));
         let mut c2 = srv.client_cmd(&work);
         c2.env("SCCACHE_IDLE_TIMEOUT", "20");
@@ -712,17 +783,16 @@ fn run_kill_case(case: &Sx) -> Sx {
         let _ = stop.arg("--stop-server").stdout(Stdio::null()).stderr(Stdio::null()).status();
         scan_and_kill_servers(&d);
     }
-    let _ = killed_wrapper;
+    scan_and_kill_everything(&d);
     srv.stop();
-    Sx::L(vec![
-        Sx::sym(kind),
-        Sx::sym(why),
-        Sx::N(code as u32 as u128 & 0xffff),
-        Sx::usize(ran.min(1)),
-        Sx::sym(if ran > 0 { "L" } else { "S" }),
-        Sx::sym(object),
-        Sx::sym(restart),
-    ])
+    let mut fields = observed_fields(&o1);
+    fields.push(Sx::sym(restart));
+    fields.push(match o2 {
+        None => Sx::L(vec![]),
+        Some(None) => Sx::L(vec![Sx::sym("client_hung")]),
+        Some(Some(o)) => Sx::L(observed_fields(&o)),
+    });
+    Sx::L(fields)
 }
 
 fn main() {
